@@ -19,7 +19,7 @@ def build(tier, seed, exclude):
     quick = tier == "quick"
     to = 110 if quick else 600
     params = ", ".join(f"c{i}: int" for i in range(NS)) + ", k: int"
-    pre = [" and ".join(f"0 <= c{i} < 3" for i in range(NS)), "0 <= k <= 3"]
+    pre = [" and ".join(f"0 <= c{i} < 4" for i in range(NS)), "0 <= k <= 3"]
     ch = "[" + ", ".join(f"T.real(c{i})" for i in range(NS)) + "]"
     for shape in ("indep", "forkjoin"):
         g.cond(f"h_async_{shape}", params, pre, f"""
@@ -65,4 +65,4 @@ def build(tier, seed, exclude):
         err = AP.c15("indep", [0, 0, 0, 0, 2, 1], None, warm_rerun=True) or AP.c15("indep", [0, 0, 0, 0, 1, 0], None, warm_rerun=True)
         return T.fail(err) if err else True
     """)
-    return g.spec(bounds={"shapes": ["indep", "forkjoin"], "schedule": f"{NS} ternary decisions", "max_concurrent": "unlimited, 1, 2, 3"})
+    return g.spec(bounds={"shapes": ["indep", "forkjoin"], "schedule": f"{NS} four-way decisions", "max_concurrent": "unlimited, 1, 2, 3"})
